@@ -577,9 +577,11 @@ def known_class(fn, types, rows, engine_out, plan_model, spec, kf_ids):
         w = 128 if t.startswith("dec") else 64
         if abs_sum_rows(rows) >= 2 ** (w - 1) and "sum-error-on-intermediate-overflow" in kf_ids:
             return "sum-error-on-intermediate-overflow"
-    if fn == "avg" and t.startswith("dec128") and engine_out.startswith("panic attempt to add with overflow"):
-        if abs_sum_rows(rows) >= 2 ** 127 and "avg-dec-i128-overflow" in kf_ids:
-            return "avg-dec-i128-overflow"
+    if fn == "avg" and t.startswith("dec128") and engine_out.startswith("err Avg overflowed"):
+        # checked i128 accumulator (2f7b0a8b9): an error is only acceptable when a partial sum can leave i128;
+        # a panic or a wrapped value is a violation
+        if abs_sum_rows(rows) >= 2 ** 127 and "avg-decimal-error-on-intermediate-overflow" in kf_ids:
+            return "avg-decimal-error-on-intermediate-overflow"
     return None
 
 
@@ -805,10 +807,11 @@ def stage_sql(ctx, rng, gverif, gmodel, kf_ids):
                         abs_sum_rows([x[3] for x in allrows]) >= 2 ** 63 and "sum-error-on-intermediate-overflow" in kf_ids:
                     known.setdefault("sum-error-on-intermediate-overflow", []).append(replay)
                     continue
-                if "attempt to add with overflow" in e.get("panic", "") and w["dec"][0] > 18 and \
+                if "Avg overflowed" in msg and w["dec"][0] > 18 and \
                         any(c[1] == "avg" and c[2][0].startswith("dec128") for c in q["calls"]) and \
-                        abs_sum_rows([x[4] for x in allrows]) >= 2 ** 127 and "avg-dec-i128-overflow" in kf_ids:
-                    known.setdefault("avg-dec-i128-overflow", []).append(replay)
+                        abs_sum_rows([x[4] for x in allrows]) >= 2 ** 127 and \
+                        "avg-decimal-error-on-intermediate-overflow" in kf_ids:
+                    known.setdefault("avg-decimal-error-on-intermediate-overflow", []).append(replay)
                     continue
                 viol.append({"what": "SQL level: aggregate query failed: %s" % json.dumps(e)[:300], "replay": replay,
                              "no_input": False})
@@ -939,7 +942,7 @@ def run(ctx):
         "obligations": len(obligations), "discharged": discharged,
         "checker_cmd": "cd coq && coq_makefile -f _CoqProject -o Makefile && make props/C07fn.vo  (Print Assumptions parsed; "
                        "Admitted/Axiom audit over the AggFn files)",
-        "trusted_base": ["Coq 8.16.1 kernel (vm_compute in three closed witness lemmas)",
+        "trusted_base": ["Coq 8.16.1 kernel (vm_compute in closed witness lemmas)",
                          "model/AggFn.v is a hand transcription of functions/aggregate/builtin/*.rs, tied to the code by the "
                          "state-level diff (harness/src/bin/gv_aggfn.rs drives the real state functions via the hook "
                          "PlannedAggregateFunction::verif_*)",
